@@ -5,6 +5,7 @@
   Thread-level interleavings inside numpy/scikit-learn are outside the model: `schedule_independent` is a theorem about the
   task-event model (each task owns its clone); the harness adds runs under dask's synchronous/threaded schedulers.
 -/
+import VerdeModel.Gen.Score
 import VerdeModel.Model.Score
 import VerdeModel.Lemmas.CV
 namespace Verde.C12
@@ -217,5 +218,35 @@ example : WellFormed [.fit 0, .fit 1, .score 1, .score 0] := by
 example : crossValScore momentEst .r2 ⟨[[0, 1, 2, 3], [0, 2, 1, 3]], [[1, 2, 4, 8]], none⟩ [([0, 1], [2, 3]), ([2, 3], [0, 1])]
     = [some (-1127781/262144), some (-187377/2048)] := by decide +kernel
 example : metric .r2 [1, 2, 3, 4] [1, 2, 3, 5] none = some (4/5) := by decide +kernel
+
+/-! ### Bridges: `select`, `fit_score` and the loop of `cross_val_score` regenerated from source -/
+
+/-- **Bridge.**  `select` as regenerated from /repo's source text on every run is the model's row selection (`None` weights stay `None`). -/
+theorem gen_select_eq_model (arrays : Option (List (List Rat))) (index : List Nat) :
+    Gen.select arrays index = arrays.map (selectAll · index) := by
+  cases arrays <;> rfl
+
+theorem gen_select_rows (r : Rows) (index : List Nat) :
+    (⟨(Gen.select (some r.coords) index).getD [], (Gen.select (some r.data) index).getD [], Gen.select r.weights index⟩ : Rows)
+      = r.select index := by
+  simp [gen_select_eq_model, Rows.select]
+
+/-- **Bridge.**  `fit_score` as regenerated from /repo's source text on every run: fit on the training rows, then the requested metric (R² when
+    none is given) of the prediction at the test coordinates against the test rows. -/
+theorem gen_fit_score_eq_model {σ : Type} (E : Est σ) (train test : Rows) (scoring : Option Scoring) :
+    Gen.fitScore E train test scoring = fitScore E (scoring.getD .r2) train test := by
+  cases scoring <;> rfl
+
+/-- **Bridge.**  The loop of `cross_val_score` as regenerated from /repo's source text on every run — `for train_index, test_index in cv.split(..)`,
+    a clone of the estimator per split, `select(i, train_index)` over `(coordinates, data, weights)` as the second argument of `fit_score` and
+    `select(i, test_index)` as the third, one score appended per split — equals the model's `crossValScore` for every estimator, dataset,
+    split list and scorer.  (Which index set reaches `fit` and which reaches the scorer is read from the source text, not assumed.) -/
+theorem gen_cross_val_score_eq_model {σ : Type} (E : Est σ) (rows : Rows) (splits : List (List Nat × List Nat)) (scoring : Option Scoring) :
+    Gen.crossValScore E rows splits scoring = crossValScore E (scoring.getD .r2) rows splits := by
+  unfold Gen.crossValScore crossValScore
+  apply List.map_congr_left
+  intro sp _
+  obtain ⟨tr, te⟩ := sp
+  simp only [gen_select_rows, gen_fit_score_eq_model]
 
 end Verde.C12
